@@ -9,7 +9,7 @@ template = open('/tmp/agent3-prompt-C15.txt').read() if os.path.exists('/tmp/age
 props = [json.loads(l) for l in open('/verif/properties.jsonl')]
 HEAD = """You are testing how robust a Go library's correctness properties are. The library is github.com/pkg/sftp (SFTP v3 client, os-backed server, handler-based request server, packet codec). You have your own scratch git worktree of it at {wt} (work ONLY inside that directory; do not touch /repo or /verif or anything else; do not read /verif).
 
-Environment: no network. Before every go command run: export GOFLAGS=-mod=mod GOPROXY=off   (do NOT set GOTOOLCHAIN or GOSUMDB). Build: `go build ./...`. Existing test suite: `go test -vet=off -count=1 ./...` (takes ~10 s; it must keep passing).
+Environment: no network. Before every go command run: export GOFLAGS=-mod=mod GOPROXY=off   (do NOT set GOTOOLCHAIN or GOSUMDB). Build: `go build ./...`. Existing test suite: `go test -vet=off -count=1 ./...` (takes ~10 s; it must keep passing). Some existing tests share the fixed unix socket path /tmp/rstest.sock with other sessions on this machine: if a suite run fails only with errors that mention that socket (address already in use / no such file or directory), that is a collision, not your change -- rerun it.
 
 The property (JSON, from the project's list of semantic properties):
 {prop}
